@@ -76,7 +76,7 @@ class SchemaModel(Model):
         self.opaque_natives = {"yaml.dump": "Str", "yaml.__init__.dump": "Str"}
         self.add_contract(Contract("PrimitiveType.build", params={"primitive_type": "PyType"}, result="PrimitiveType", kind="assumed",
                                    ensures=["isinstance(result, PrimitiveType)", "result.python_type is primitive_type"],
-                                   note="repo classmethod not under proof; its two-line body constructs cls(meta=..., python_type=primitive_type)"))
+                                   note="used by contract here; the same two clauses are proved on the real classmethod in props/C07.py (verify_primitive_build)"))
 
     # PrimitiveType.__eq__(bare python type): `self.python_type is other`; dataclass __eq__ of the other wrappers
     # returns NotImplemented for a bare type, i.e. `==` is False.  (Modelled, cross-checked natively, not proved.)
